@@ -312,6 +312,41 @@ func main() {
 		emit(f)
 	}
 
+	// bounded stand-ins of this property (labelled bounded, not counted as proof)
+	bounded := runBounded(*prop, *tier, *repo, *verifDir, replayDir)
+	for _, b := range bounded {
+		// classes of disagreements the stand-in itself recognises: a violation unless the class is listed
+		// in the known-findings file
+		var cls []string
+		for c := range b.Classes {
+			cls = append(cls, c)
+		}
+		sort.Strings(cls)
+		for _, c := range cls {
+			name := "bounded:" + b.Name + ":" + c
+			if _, isKnown := knownByObl[name]; isKnown {
+				knownSeen[name] = true
+				continue
+			}
+			os.MkdirAll(replayDir, 0o755)
+			file := filepath.Join(replayDir, "bounded_"+b.Name+"_"+sanitizeFile(c)+".json")
+			bb, _ := json.MarshalIndent(map[string]any{"property": *prop, "class": "bounded", "obligation": name, "failing_input": b.Classes[c].First, "count": b.Classes[c].Count, "result": b}, "", " ")
+			os.WriteFile(file, bb, 0o644)
+			violations++
+			fmt.Printf("VIOLATION property=%s replay=%s obligation=%s input=%s\n", *prop, file, name, strconv.Quote(b.Classes[c].First))
+		}
+		if b.Disagreements != 0 {
+			os.MkdirAll(replayDir, 0o755)
+			file := filepath.Join(replayDir, "bounded_"+b.Name+".json")
+			bb, _ := json.MarshalIndent(map[string]any{"property": *prop, "class": "bounded", "obligation": "bounded:" + b.Name, "failing_input": b.First, "result": b}, "", " ")
+			os.WriteFile(file, bb, 0o644)
+			violations++
+			fmt.Printf("VIOLATION property=%s replay=%s obligation=bounded:%s input=%s\n", *prop, file, b.Name, strconv.Quote(b.First))
+		} else {
+			fmt.Printf("bounded stand-in %s: %d cases, 0 unlisted disagreements (%.1fs) [labelled bounded]\n", b.Name, b.Cases, b.Seconds)
+		}
+	}
+
 	// known findings
 	var knownNames []string
 	for n := range knownByObl {
@@ -329,20 +364,6 @@ func main() {
 		}
 	}
 
-	// bounded stand-ins of this property (labelled bounded, not counted as proof)
-	bounded := runBounded(*prop, *tier, *repo, *verifDir, replayDir)
-	for _, b := range bounded {
-		if b.Disagreements != 0 {
-			os.MkdirAll(replayDir, 0o755)
-			file := filepath.Join(replayDir, "bounded_"+b.Name+".json")
-			bb, _ := json.MarshalIndent(map[string]any{"property": *prop, "class": "bounded", "obligation": "bounded:" + b.Name, "failing_input": b.First, "result": b}, "", " ")
-			os.WriteFile(file, bb, 0o644)
-			violations++
-			fmt.Printf("VIOLATION property=%s replay=%s obligation=bounded:%s input=%s\n", *prop, file, b.Name, strconv.Quote(b.First))
-		} else {
-			fmt.Printf("bounded stand-in %s: %d cases, 0 disagreements (%.1fs) [labelled bounded]\n", b.Name, b.Cases, b.Seconds)
-		}
-	}
 	if nObl == 0 && violations == 0 {
 		emit(Failure{Obligation: "tool:no-obligations", Class: "tool", Clause: "no obligation was generated for this property (vacuous check)", Status: "tool-error", Property: *prop, ToolError: true})
 	}
